@@ -193,6 +193,10 @@ pub fn run(ctx: &Ctx) -> (Report, Meta) {
         let (prob, mut scn) = gen_case(&mut rng, &g2);
         let m = mname(scn.method);
         scn.t_eval = None;
+        if i % 9 == 4 && scn.method != Method::RK4 {
+            // accepted steps far below 1e-12: they are part of the covered span too
+            scn.first_step = Some(scn.dir() * rng.logu(1e-14, 1e-11) * (1.0 + scn.x0.abs()));
+        }
         let zero_len = i % 53 == 0;
         if zero_len {
             scn.xend = scn.x0;
